@@ -64,7 +64,7 @@ _XV_STUBS = ['Db::getSampleNumber: the constant N', 'Db::isActive(rank): symboli
 _XV_ASSUME = ['KrigingSystem, Db, Model are raw storage with only the fields read initialised (harness/C01/ks_common.h); _lhsinv is a real MatrixSquareSymmetric(N)',
               'one variable, no drift (_nfeq=0: simple kriging with a known mean), no Bayesian drift, _flagNoMatLC=true',
               'exact (real) arithmetic reading of the divisions and of sqrt (r>=0, r*r==x; sqrt of a structurally identical argument is the same number); the native build compares the separately computed quotients up to 1e-9 relative']
-for _n, _tiers in ((2, ('quick', 'thorough')), (3, ('quick', 'thorough')), (4, ('thorough',))):
+for _n, _tiers in ((2, ('quick', 'thorough')), (3, ('quick', 'thorough'))):  # n = 4: the standardised-error obligations need minutes each (324 runs), not registered
     K('C04.e.formula.%d' % _n, property='C04', engine='symex', harness='C04/xvalid.cpp', entry='k_xv_formula', tus=_KS_TUS, tiers=_tiers,
       defines={'all': {'VF_NECH': _n - 1, 'VF_NVAR': 1, 'VF_NFEQ': 0, 'VF_NDIM': 2, 'VF_NFEX': 0}},
       bounds={'quick': 'data base of exactly %d samples, every mask pattern, every pattern of undefined values, every target rank; inverse matrix = arbitrary symmetric real matrix with positive diagonal; '
@@ -82,7 +82,7 @@ for _n, _tiers in ((2, ('quick', 'thorough')), (3, ('quick', 'thorough'))):
                        'definite matrix); data and mean arbitrary reals; every target' % _n},
       timeout_ms={'quick': 120000, 'thorough': 900000}, validate={'quick': 30, 'thorough': 60}, validate_doubles='int', symex={'sqrt_memo_sym': True},
       what='KrigingSystem::_estimateCalculXvalidUnique fed with the exact inverse (adjugate / determinant) of a symbolic covariance matrix C, against the definition: leave-one-out simple kriging of '
-           'sample i from the other samples (weights solve C_{-i} lambda = c_{-i,i} by Cramer; Z* = mean + lambda.(z - mean); variance = C_ii - lambda.c_{-i,i}): estimate and stdev equal as '
-           'functions of the entries of C, the data and the mean',
+           'sample i from the other samples (weights solve C_{-i} lambda = c_{-i,i} by Cramer; Z* = mean + lambda.(z - mean); variance = C_ii - lambda.c_{-i,i}): estimate and squared stdev equal as '
+           'rational functions of the entries of C, the data and the mean',
       out='as C04.e.formula; masked / undefined samples (C04.e.formula); n > 3; floating-point rounding of the inverse',
       assumptions=_XV_ASSUME, stubs=_XV_STUBS)
